@@ -467,6 +467,22 @@ def mmap_gate(ctx):
                   "kept only for uncompressed, on-disk, raw files", "mmap_mode is kept under %s" % conds)
     nul = [a for a in sets if is_const(a.value, None)]
     ctx.check(bool(nul), nul[0] if nul else v, "and nulled first whenever a mode was requested")
+    # ... and it is the VALIDATED mode that reaches the unpickler, in both loaders
+    for q_ in ("load", "load_temporary_memmap"):
+        fn_ = ctx.repo.func(NP, q_)
+        for w_ in nodes_of_type(fn_, ast.With):
+            for it in w_.items:
+                if isinstance(it.context_expr, ast.Call) and call_name(it.context_expr) == "_validate_fileobject_and_memmap":
+                    ov = it.optional_vars
+                    second = ov.elts[1] if isinstance(ov, ast.Tuple) and len(ov.elts) == 2 and isinstance(ov.elts[1], ast.Name) else None
+                    ups = [c_ for c_ in calls_in(ast.Module(body=w_.body, type_ignores=[])) if call_name(c_) == "_unpickle"]
+                    for u_ in ups:
+                        mm_ = kwarg(u_, "mmap_mode", 3)
+                        if mm_ is None:
+                            ctx.ok(u_, "%s: this _unpickle call does not memory-map" % q_)
+                        else:
+                            ctx.check(second is not None and dotted(mm_) == second.id and second.id != "_", u_, "%s hands the validated mode (`%s`) to the unpickler" % (q_, second.id if second is not None else "?"),
+                                      "%s hands `%s` to _unpickle instead of the mode validated for this file: a compressed or in-memory file is memory-mapped at offsets of the decompressed stream (garbage arrays)" % (q_, unparse(mm_)))
     for a in nul:
         fc = cond_facts([c_ for c_ in gv.conditions_at(gv.nodes_of(a)) if "mmap_mode" in unparse(c_[1])])
         ctx.check(fc == [("mmap_mode is not None", True)] or fc == [("mmap_mode is None", False)], a, "the validation branch is entered exactly when a mode was requested", "the mode is validated under %s: a requested mode skips the validation (a compressed or in-memory file would be memory-mapped)" % fc)
